@@ -66,6 +66,43 @@ def seed_cases(summary: Dict, peaks_count: int) -> List[Dict]:
     return out
 
 
+def second_pass_lines(summary: Dict) -> List[Dict]:
+    """Trace_Fragments lines that bind the pipeline's second pass to Fragments.tla: for every first-pass record
+    (all._1) the fragments the model predicts vs the second-pass tasks the recorder saw for that query (Primary events
+    are dispatched for every task, also for those that end without a candidate)"""
+    qx = {q["id"]: q["x"] for q in summary["inp"]["qrys"]}
+    tasks: Dict[int, List] = {}
+    ref0 = summary["inp"]["refs"][0]["id"]
+    for ev in summary["modes"]["all"]["recorded"]:
+        # one Primary event per (task, reference, strand): count each task once (first reference, forward strand),
+        # keeping multiplicity (a fragment may coincide with the whole query)
+        if ev["ev"] == "Primary" and ev.get("task") and ev["ref"] == ref0 and not ev["rev"]:
+            qid, shift, npos = ev["task"]
+            tasks.setdefault(qid, []).append((shift, npos))
+    f1 = summary["modes"]["all"]["files"].get("_1")
+    out = []
+    if not f1:
+        return out
+    for rec in f1["records"]:
+        xs = qx.get(rec["q"])
+        if not xs or not rec["pairs"]:
+            continue
+        tx = [v - xs[0] for v in xs]
+        whole = (0, len(xs))
+        seen = list(tasks.get(rec["q"], []))
+        if whole in seen:
+            seen.remove(whole)          # the first-pass task itself
+        obs = []
+        for (shift, npos) in sorted(seen):
+            obs.append({"x": tx[shift: shift + npos], "shift": shift, "len": tx[-1] + 10})
+        # a fragment that IS the whole query (strand '-' with the alignment at the molecule's end) was removed above
+        out.append({"xs": tx, "qlen": tx[-1] + 10,
+                    "row": {"qs": rec["qs"], "qe": rec["qe"], "rev": rec["ori"] == "-",
+                            "firstQ": rec["pairs"][0][1], "lastQ": rec["pairs"][-1][1]},
+                    "obs": obs, "status": "ok", "tag": {"input": summary["idx"], "query": rec["q"]}})
+    return out
+
+
 def explore(ctx: Ctx, n_inputs: int, salt: int, kinds=None, n_qry: int = 12):
     quick = ctx.tier == "quick"
     mc_res = {}
